@@ -111,7 +111,7 @@ class LexTranslator:
                 g = n.args[0]
                 src = ast.unparse(g)
                 want = 'c not in "0123456789abcdefABCDEF" for c in tempbuf'
-                if src.replace("'", '"') == want:
+                if src.replace("'", '"').strip("()") == want.strip("()") or src.replace("'", '"') == "(" + want + ")":
                     return "(negb (forallb is_hex_digit %s))" % sym.env["tempbuf"]
         self.fail(n, "boolean expression")
 
